@@ -245,6 +245,33 @@ def run_case(case):
                 edge = (X == 0).reshape(X.shape[0], -1).any(1)
             cmp_logprob(d, ref.logpdf, X, shape, f"params a={a.tolist()} b={b.tolist()} df={None if df is None else df.tolist()}", edge=edge)
             cmp_access(d, acc, shape)
+            if leg == "family" and acc:
+                # non-initial states: every trainable leaf moved (as training does); the density must be the textbook density of
+                # the parameters the ACCESSORS now report (nothing computed once at construction may go stale)
+                from flowjax.wrappers import unwrap
+                from mc import params as P
+
+                for lvl in (1, 2):
+                    dl = unwrap(P.perturb(d, lvl, seed))
+                    rd = {k_: np.asarray(getattr(dl, k_), float) for k_ in acc}
+                    if fam == "Uniform":
+                        a2, b2, df2 = rd["minval"], rd["maxval"] - rd["minval"], None
+                    elif fam == "Exponential":
+                        a2, b2, df2 = a, rd["rate"], None
+                    else:
+                        a2, b2, df2 = rd["loc"], rd["scale"], rd.get("df")
+                    if not (np.all(np.isfinite(b2)) and np.all(b2 > 0) and (df2 is None or np.all(df2 > 0))):
+                        add("trained-accessor", f"{case['id']} level {lvl}: after moving every trainable leaf the accessors report an invalid parameter {rd}")
+                        continue
+                    ref2 = make(fam, np.broadcast_to(a2, shape), np.broadcast_to(b2, shape), None if df2 is None else np.broadcast_to(df2, shape))[1]
+                    X2 = eval_points(fam, np.broadcast_to(a2, shape), np.broadcast_to(b2, shape), shape)
+                    edge2 = None
+                    if fam == "Uniform":
+                        A3, B3 = np.broadcast_to(a2, shape), np.broadcast_to(b2, shape)
+                        edge2 = ((np.abs(X2 - A3) <= 4e-16 * (np.abs(A3) + B3)) | (np.abs(X2 - A3 - B3) <= 4e-16 * (np.abs(A3) + B3))).reshape(X2.shape[0], -1).any(1)
+                    elif fam == "Exponential":
+                        edge2 = (X2 == 0).reshape(X2.shape[0], -1).any(1)
+                    cmp_logprob(dl, ref2.logpdf, X2, shape, f"trained state {lvl}: accessors " + str({k_: v_.tolist() for k_, v_ in rd.items()}), edge=edge2)
             if leg == "family" or ci % 4 == 0:
                 A_, B_ = np.broadcast_to(a, shape).reshape(-1), np.broadcast_to(b, shape).reshape(-1)
                 DF_ = None if df is None else np.broadcast_to(df, shape).reshape(-1)
